@@ -337,7 +337,7 @@ fn cli_conv_case(bin: &str, dir: &Path, case: &Value, n: usize) -> Value {
 }
 
 /// `versatiles convert [-c <codec>] [-f] src.versatiles out.<fmt>` for a recompression case
-fn cli_recomp_case(bin: &str, dir: &Path, case: &Value, n: usize) -> Value {
+fn cli_recomp_case(bin: &str, dir: &Path, case: &Value, n: usize, override_input: bool) -> Value {
 	let mut c = case.clone();
 	c["fmt"] = json!("mem");
 	c["tf"] = json!("pbf");
@@ -354,7 +354,10 @@ fn cli_recomp_case(bin: &str, dir: &Path, case: &Value, n: usize) -> Value {
 	}).collect();
 	let sp = dir.join("cli_rsrc.versatiles");
 	let meta = serde_json::to_vec(&json!({"name": meta_name, "tilejson": "3.0.0"})).unwrap();
-	std::fs::write(&sp, indep::encode_versatiles("pbf", src_tc, &src.raw_tiles(), Some(&meta), &indep::VtChoices { partial_blocks: true, reverse_tiles: false, share_all: false, index_first: false, shuffle_blocks: false, gap: 0 })).unwrap();
+	// override_input: the file DECLARES uncompressed tiles although they are stored with src_tc (the situation
+	// `--override-input-compression` exists for); the option has to give the same result as an honest declaration
+	let declared_in = if override_input { "none" } else { src_tc };
+	std::fs::write(&sp, indep::encode_versatiles("pbf", declared_in, &src.raw_tiles(), Some(&meta), &indep::VtChoices { partial_blocks: true, reverse_tiles: false, share_all: false, index_first: false, shuffle_blocks: false, gap: 0 })).unwrap();
 	let path = file_path(dir, fmt, "clir");
 	remove_path(&path);
 	if fmt == "directory" {
@@ -373,10 +376,13 @@ fn cli_recomp_case(bin: &str, dir: &Path, case: &Value, n: usize) -> Value {
 	if force {
 		args.push(if n % 2 == 0 { "-f".into() } else { "--force-recompress".into() });
 	}
+	if override_input {
+		args.push(format!("--override-input-compression={}", match src_tc { "none" => "uncompressed", t => t }));
+	}
 	args.push(sp.to_str().unwrap().into());
 	args.push(path.to_str().unwrap().into());
 	let (exit, err) = run_cli(bin, &args);
-	let mut ev = json!({"ev":"clirecomp","id":n,"tiles":src.tiles_json(),"src_tc":src_tc,"target":target,"force":force as u8,"fmt":fmt,"exit":exit,
+	let mut ev = json!({"ev":"clirecomp","id":n,"tiles":src.tiles_json(),"src_tc":src_tc,"target":target,"force":force as u8,"fmt":fmt,"override":override_input as u8,"exit":exit,
 		"args":args[1..args.len()-2],"err":if exit == 0 { String::new() } else { err }});
 	ev["file"] = if path.exists() { recomp_file(fmt, &path, &raw, meta_name) } else { json!({"skip":0,"ok":0,"tc":"","tiles":[],"meta_ok":0,"err":"no output"}) };
 	remove_path(&path);
@@ -402,7 +408,13 @@ pub fn cli(input: &str, output: &str, dir: &str, bin: &str, stride: usize) -> Va
 						let (n, c) = cases[i];
 						let e = match c["k"].as_str().unwrap() {
 							"conv" => cli_conv_case(bin, &d, c, n),
-							"recomp" => cli_recomp_case(bin, &d, c, n),
+							"recomp" => {
+								// sources stored compressed: once more with a file that declares them uncompressed + the override option
+								if c["src_tc"] != "none" {
+									v.push((usize::MAX, cli_recomp_case(bin, &d, c, n, true)));
+								}
+								cli_recomp_case(bin, &d, c, n, false)
+							}
 							k => panic!("kind {k}"),
 						};
 						v.push((i, e));
@@ -415,18 +427,26 @@ pub fn cli(input: &str, output: &str, dir: &str, bin: &str, stride: usize) -> Va
 		hs.into_iter().map(|h| h.join().unwrap()).collect()
 	});
 	let mut slots: Vec<Option<Value>> = vec![None; cases.len()];
+	let mut extra: Vec<Value> = vec![];
 	let mut nonzero = 0u64;
 	for r in results {
 		for (i, e) in r {
 			nonzero += (e["exit"] != 0) as u64;
-			slots[i] = Some(e);
+			if i == usize::MAX {
+				extra.push(e);
+			} else {
+				slots[i] = Some(e);
+			}
 		}
 	}
 	for s in slots {
 		out.emit(&s.unwrap());
 	}
+	for e in &extra {
+		out.emit(e);
+	}
 	let lines = out.finish();
-	json!({"cases": cases.len(), "events": lines, "nonzero_exit": nonzero})
+	json!({"cases": cases.len() + extra.len(), "events": lines, "nonzero_exit": nonzero, "override_runs": extra.len()})
 }
 
 pub fn replay(input: &str, output: &str, dir: &str) -> Value {
